@@ -584,7 +584,7 @@ func checkC08Callers(p *an.Prog, r *an.Run, rh *ssa.Function) {
 
 func checkActiveHosts(p *an.Prog, r *an.Run, d *types.Named, m *ssa.Function, exp int64) {
 	kind := driverKind(d)
-	kindPrm, limitPrm := m.Params[1], m.Params[2]
+	kindPrm := m.Params[1]
 	var bad []string
 	// the result appends
 	var appends []*ssa.Call
@@ -730,8 +730,30 @@ func checkActiveHosts(p *an.Prog, r *an.Run, d *types.Named, m *ssa.Function, ex
 	if !seen.found {
 		bad = append(bad, "no recency filter fences the result: hosts that stopped checking in would be returned; "+seen.why)
 	}
-	// the appended element is the iterated record
-	// limit semantics
+	bad = append(bad, limitSemantics(p, d, m, app)...)
+	if kind == "badger" {
+		dec, _ := freshDecodeViolations(p, func(fn *ssa.Function) bool { return isNested(fn, m) })
+		bad = append(bad, dec...)
+	}
+	r.Check(len(bad) == 0, "driver-filters", kind, m.Pos(), "result fenced by IsHost, kind (unless empty query), LastSeen > now-ExpireInterval; limit honoured (0 = unlimited)", "%s", strings.Join(dedup(bad), "; "))
+}
+
+func isFieldNamed(v ssa.Value, name string) bool {
+	if f, ok := v.(*ssa.Field); ok {
+		if fv := an.FieldOf(f); fv != nil && fv.Name() == name {
+			return true
+		}
+		return isFieldNamed(f.X, name) && false
+	}
+	return false
+}
+
+// limitSemantics checks the documented limit handling of ActiveHosts (limit > 0 caps the result, 0 = unlimited).
+func limitSemantics(p *an.Prog, d *types.Named, m *ssa.Function, app *ssa.Call) []string {
+	kind := driverKind(d)
+	limitPrm := m.Params[2]
+	isApp := func(in ssa.Instruction) bool { return in == ssa.Instruction(app) }
+	var bad []string
 	switch kind {
 	case "memory":
 		okBreak := false
@@ -789,19 +811,5 @@ func checkActiveHosts(p *an.Prog, r *an.Run, d *types.Named, m *ssa.Function, ex
 			bad = append(bad, "the limit is not honoured (result never truncated to limit)")
 		}
 	}
-	if kind == "badger" {
-		dec, _ := freshDecodeViolations(p, func(fn *ssa.Function) bool { return isNested(fn, m) })
-		bad = append(bad, dec...)
-	}
-	r.Check(len(bad) == 0, "driver-filters", kind, m.Pos(), "result fenced by IsHost, kind (unless empty query), LastSeen > now-ExpireInterval; limit honoured (0 = unlimited)", "%s", strings.Join(dedup(bad), "; "))
-}
-
-func isFieldNamed(v ssa.Value, name string) bool {
-	if f, ok := v.(*ssa.Field); ok {
-		if fv := an.FieldOf(f); fv != nil && fv.Name() == name {
-			return true
-		}
-		return isFieldNamed(f.X, name) && false
-	}
-	return false
+	return bad
 }
